@@ -5,7 +5,6 @@ import (
 	"go/ast"
 	"go/token"
 	"go/types"
-	"path/filepath"
 	"sort"
 )
 
@@ -99,7 +98,7 @@ func (pi *pkgInfo) funcDecl(fd *ast.FuncDecl) {
 	}
 	u.Name = name
 	pos := pi.fset.Position(fd.Pos())
-	u.File, u.Line, u.EndLine = filepath.Base(pos.Filename), pos.Line, pi.fset.Position(fd.End()).Line
+	u.File, u.Line, u.EndLine = pos.Filename, pos.Line, pi.fset.Position(fd.End()).Line
 	out.Units = append(out.Units, u)
 	n := 0
 	w := &walker{pi: pi, u: u, held: map[string]Held{}, onces: map[string]bool{}, fresh: map[string]bool{}, litN: &n, top: name}
@@ -113,7 +112,7 @@ func (w *walker) lit(fl *ast.FuncLit, kind string) string {
 	u := &Unit{Name: fmt.Sprintf("%s$%d", w.top, *w.litN), Pkg: w.pi.pkg, Parent: w.u.Name, LitKind: kind, Ops: []Op{},
 		RecvType: w.u.RecvType, RecvName: w.u.RecvName, InhOnces: w.onceList()}
 	pos := w.pi.fset.Position(fl.Pos())
-	u.File, u.Line, u.EndLine = filepath.Base(pos.Filename), pos.Line, w.pi.fset.Position(fl.End()).Line
+	u.File, u.Line, u.EndLine = pos.Filename, pos.Line, w.pi.fset.Position(fl.End()).Line
 	out.Units = append(out.Units, u)
 	nw := &walker{pi: w.pi, u: u, held: map[string]Held{}, onces: copySet(w.onces), fresh: map[string]bool{}, litN: w.litN, top: w.top}
 	if kind == "sync" || len(kind) > 5 && kind[:5] == "once:" {
